@@ -9,14 +9,13 @@ CONSTANTS
   r3 = r3
   NoTarget = NoTarget
   Cmds <- MCCmds
-  Group <- MCGroupS
-  Reqs = {r1, r2}
-  Kinds = {"plain", "forever", "upgrade"}
-  MaxProbes = 1
-  AllowBad = FALSE
+  Group <- MCGroup
+  Reqs = {r1}
+  Kinds = {"plain"}
+  MaxProbes = 2
+  AllowBad = TRUE
   SignalAfterNotify = TRUE
   Exempt = TRUE
-SYMMETRY Sym2
 INVARIANTS
   TypeOK
   D_C01_a
